@@ -25,7 +25,9 @@ def mk_case(cid, cmds, scripts=(), lim=U24_MAX, chunks=None, user=b"jon", auth="
         caps = DEFAULT_CAPS if h % 3 == 0 else ((DEFAULT_CAPS ^ (h * 2654435761 & 0xffffffff)) | 0x200) & ~0x800 & 0xffffffff
         if h % 5 == 1:
             caps |= 1 << 24
-        hs_payload = hs41(user, caps=caps)
+        # ... and a different max_packet_size / collation (the server has no business acting on either)
+        maxps = [0x01000000, 0, 1024, 4096, 65535, 0xffffffff, 0x00ffffff, 512][(h >> 8) % 8]
+        hs_payload = hs41(user, caps=caps, maxps=maxps, coll=[0x21, 0x2d, 0xff, 8][(h >> 12) % 4])
     stream = frame(hs_payload, hs_seq, lim)
     meta = []
     for item in cmds:
